@@ -50,6 +50,8 @@ INPUTS = {
     "ok-attribute-spacing": ({"main.xsd": OK_XSD.replace('schemaLocation="other.xsd"', "schemaLocation = 'other.xsd'").replace('namespace="urn:other"', 'namespace\n   =\t"urn:other"'), "other.xsd": OTHER_XSD}, "main.xsd", True),
     # the default output path replaces the LAST extension only
     "ok-two-dots-in-the-name": ({"catalog.v2.xsd": OK_XSD, "other.xsd": OTHER_XSD, "catalog.rs": "// somebody else's file\n"}, "catalog.v2.xsd", True),
+    # a sibling whose name begins with a dot is a file like any other: it can be imported
+    "ok-import-of-a-dot-file": ({"main.xsd": OK_XSD.replace('schemaLocation="other.xsd"', 'schemaLocation=".other.xsd"'), ".other.xsd": OTHER_XSD}, "main.xsd", True),
     "ok-no-extension": ({"schema": OK_XSD, "other.xsd": OTHER_XSD}, "schema", True),
     "ok-upper-case-extension": ({"MAIN.XSD": OK_XSD, "other.xsd": OTHER_XSD}, "MAIN.XSD", True),
 }
